@@ -21,6 +21,10 @@ pub struct World {
     pub log: Vec<String>,
     pub masks: Masks,
     pub pending: std::collections::VecDeque<Op>,
+    /// element returned by the last create/copy/move call
+    pub last_created: Option<Element>,
+    /// model returned by the last duplicate() call
+    pub last_model: Option<AutosarModel>,
 }
 
 /// triggers of known findings that generators avoid (each has a deterministic witness elsewhere)
@@ -38,6 +42,14 @@ pub struct Masks {
     pub no_cyclic_names: bool,
     /// sort the model before a file of it is loaded into it again (the merge assumes both sides list different kinds in specification order)
     pub no_unsorted_merge: bool,
+    /// do not edit the attributes of the AUTOSAR root element (xmlns etc. are free strings for the editor, fixed values for the loader)
+    pub no_root_attr_edit: bool,
+    /// do not give SHORT-NAME elements a file set of their own
+    pub no_shortname_membership: bool,
+    /// do not move/copy an element to a parent where its element name denotes a different element type
+    pub no_type_changing_moves: bool,
+    /// do not duplicate models whose files have different versions (duplicate() copies with the lowest version as filter)
+    pub no_mixed_version_duplicate: bool,
 }
 
 impl Default for Masks {
@@ -49,6 +61,10 @@ impl Default for Masks {
             no_failing_merge: true,
             no_cyclic_names: false,
             no_unsorted_merge: true,
+            no_root_attr_edit: true,
+            no_shortname_membership: true,
+            no_type_changing_moves: true,
+            no_mixed_version_duplicate: true,
         }
     }
 }
@@ -341,6 +357,8 @@ impl World {
             log: Vec::new(),
             masks: Masks::default(),
             pending: std::collections::VecDeque::new(),
+            last_created: None,
+            last_model: None,
         }
     }
 
@@ -469,18 +487,32 @@ impl World {
     }
 
     fn exec_inner(&mut self, op: &Op) -> Outcome {
+        self.last_created = None;
+        let created = std::cell::RefCell::new(None);
+        let keep = |r: Result<Element, AutosarDataError>| {
+            if let Ok(e) = &r {
+                *created.borrow_mut() = Some(e.clone());
+            }
+            r
+        };
+        let out = self.exec_match(op, &keep);
+        self.last_created = created.into_inner();
+        out
+    }
+
+    fn exec_match(&mut self, op: &Op, keep: &dyn Fn(Result<Element, AutosarDataError>) -> Result<Element, AutosarDataError>) -> Outcome {
         let el = |i: &usize| self.elems[*i].clone();
         match op {
-            Op::CreateSub { p, name } => res(el(p).create_sub_element(*name), |_| "elem".into()),
-            Op::CreateSubAt { p, name, pos } => res(el(p).create_sub_element_at(*name, *pos), |_| "elem".into()),
-            Op::CreateNamed { p, name, item } => res(el(p).create_named_sub_element(*name, item), |_| "elem".into()),
-            Op::CreateNamedAt { p, name, item, pos } => res(el(p).create_named_sub_element_at(*name, item, *pos), |_| "elem".into()),
-            Op::GetOrCreate { p, name } => res(el(p).get_or_create_sub_element(*name), |_| "elem".into()),
-            Op::GetOrCreateNamed { p, name, item } => res(el(p).get_or_create_named_sub_element(*name, item), |_| "elem".into()),
-            Op::Copy { p, src } => res(el(p).create_copied_sub_element(&el(src)), |e| format!("copy name={:?}", e.item_name())),
-            Op::CopyAt { p, src, pos } => res(el(p).create_copied_sub_element_at(&el(src), *pos), |e| format!("copy name={:?}", e.item_name())),
-            Op::Move { p, src } => res(el(p).move_element_here(&el(src)), |e| format!("moved name={:?}", e.item_name())),
-            Op::MoveAt { p, src, pos } => res(el(p).move_element_here_at(&el(src), *pos), |e| format!("moved name={:?}", e.item_name())),
+            Op::CreateSub { p, name } => res(keep(el(p).create_sub_element(*name)), |_| "elem".into()),
+            Op::CreateSubAt { p, name, pos } => res(keep(el(p).create_sub_element_at(*name, *pos)), |_| "elem".into()),
+            Op::CreateNamed { p, name, item } => res(keep(el(p).create_named_sub_element(*name, item)), |_| "elem".into()),
+            Op::CreateNamedAt { p, name, item, pos } => res(keep(el(p).create_named_sub_element_at(*name, item, *pos)), |_| "elem".into()),
+            Op::GetOrCreate { p, name } => res(keep(el(p).get_or_create_sub_element(*name)), |_| "elem".into()),
+            Op::GetOrCreateNamed { p, name, item } => res(keep(el(p).get_or_create_named_sub_element(*name, item)), |_| "elem".into()),
+            Op::Copy { p, src } => res(keep(el(p).create_copied_sub_element(&el(src))), |e| format!("copy name={:?}", e.item_name())),
+            Op::CopyAt { p, src, pos } => res(keep(el(p).create_copied_sub_element_at(&el(src), *pos)), |e| format!("copy name={:?}", e.item_name())),
+            Op::Move { p, src } => res(keep(el(p).move_element_here(&el(src))), |e| format!("moved name={:?}", e.item_name())),
+            Op::MoveAt { p, src, pos } => res(keep(el(p).move_element_here_at(&el(src), *pos)), |e| format!("moved name={:?}", e.item_name())),
             Op::Remove { p, child } => res(el(p).remove_sub_element(el(child)), |()| String::new()),
             Op::RemoveKind { p, name } => res(el(p).remove_sub_element_kind(*name), |()| String::new()),
             Op::Rename { e, item } => res(el(e).set_item_name(item), |()| String::new()),
@@ -539,6 +571,7 @@ impl World {
             Op::Duplicate { m } => {
                 let r = self.models[*m].duplicate();
                 if let Ok(copy) = &r {
+                    self.last_model = Some(copy.clone());
                     if self.models.len() < 4 {
                         self.models.push(copy.clone());
                     }
@@ -809,10 +842,12 @@ impl World {
 
     fn compatible_parents(&self, m: usize, child: &Element) -> Vec<usize> {
         let name = child.element_name();
+        let ctype = child.element_type();
+        let strict = self.masks.no_type_changing_moves;
         self.trees[m]
             .nodes
             .iter()
-            .filter(|n| n.elem.element_type().find_sub_element(name, u32::MAX).is_some())
+            .filter(|n| n.elem.element_type().find_sub_element(name, u32::MAX).is_some_and(|(t, _)| !strict || t == ctype))
             .filter_map(|n| self.elem_ids.get(&n.elem).copied())
             .collect()
     }
@@ -977,6 +1012,9 @@ impl World {
                 };
                 let pe = self.elems[p].clone();
                 let _ = is_move;
+                if self.masks.no_type_changing_moves && pe.element_type().find_sub_element(se.element_name(), u32::MAX).is_some_and(|(t, _)| t != se.element_type()) {
+                    return None;
+                }
                 Some(match kind {
                     Kind::Copy => Op::Copy { p, src },
                     Kind::Move => Op::Move { p, src },
@@ -1076,6 +1114,9 @@ impl World {
                     self.pick_receiver(prof, &|e| e.element_type().attribute_spec_iter().next().is_some())?
                 };
                 let ee = self.elems[e].clone();
+                if self.masks.no_root_attr_edit && ee.element_name() == ElementName::Autosar {
+                    return None;
+                }
                 let specs: Vec<(AttributeName, &'static CharacterDataSpec, bool)> = ee.element_type().attribute_spec_iter().collect();
                 let version = version_of(&ee);
                 if specs.is_empty() || self.hostile(prof) {
@@ -1124,6 +1165,9 @@ impl World {
                 let e = self.pick_receiver(prof, &|e| e.parent().ok().flatten().is_none_or(|p| p.element_type().splittable() != 0))?;
                 let ee = self.elems[e].clone();
                 if self.masks.no_root_remove_from_file && kind == Kind::RemoveFromFile && ee.element_name() == ElementName::Autosar {
+                    return None;
+                }
+                if self.masks.no_shortname_membership && ee.element_name() == ElementName::ShortName {
                     return None;
                 }
                 let f = if self.hostile(prof) {
@@ -1201,7 +1245,16 @@ impl World {
                 };
                 Some(Op::RemoveFile { m, f })
             }
-            Kind::Duplicate => Some(Op::Duplicate { m: self.pick_model(prof) }),
+            Kind::Duplicate => {
+                let m = self.pick_model(prof);
+                if self.masks.no_mixed_version_duplicate {
+                    let versions: Vec<AutosarVersion> = self.models[m].files().map(|f| f.version()).collect();
+                    if versions.windows(2).any(|w| w[0] != w[1]) {
+                        return None;
+                    }
+                }
+                Some(Op::Duplicate { m })
+            }
             Kind::SetVersion => {
                 if self.files.is_empty() {
                     return None;
